@@ -242,7 +242,8 @@ def gen_query(rng, d, forward=None, cap=None, alt=False, limits=True):
         t = rng.choice([2400, 2900, 3000, 3300, 3600, 4000, 4500, 5000, 6000]) + rng.choice([0, 0, 1, 59, 600])
     elif prof == "hours":
         h = d.get("base_hour", 0)
-        t = h * 3600 + rng.choice([-3600, 0, 3600, 7200, 10800]) + rng.choice([-1, 0, 0, 1, 60, 1800, 3599])
+        # 2400 / 3000 / 3300: request + a long access walk crosses the hour mark while a vehicle is still catchable from a nearer stop
+        t = h * 3600 + rng.choice([-3600, 0, 3600, 7200, 10800]) + rng.choice([-1, 0, 0, 1, 60, 1800, 3599, 2400, 3000, 3300])
         t = max(0, min(t, MAXC))
     elif prof.startswith("tmpl"):
         t = rng.choice([9000, 12000, 2000, 2700])
@@ -274,6 +275,9 @@ def gen_query(rng, d, forward=None, cap=None, alt=False, limits=True):
         if rng.random() < 0.05: q["min_waiting_time"] = rng.choice([32767, 32768, 65535, -3])
     if alt:
         q["alternatives"] = rng.choice(["1", "true"])
+        # the alternatives search has its own travel-time window (30 min floor, fastest + 60 min): limits below the floor matter
+        if rng.random() < 0.5:
+            q["max_travel_time"] = rng.choice([300, 450, 600, 750, 900, 1200, 1500, 1700])
     return q
 
 
